@@ -318,6 +318,17 @@ def _execute(scn, ctx, store, clock, rng):
             mc = numpy.array(fc.magnitude_counts())
             ctx.log('read', oi, tot)
             ref = float(d.sum())
+            if not quad and not any(c.get('flag', 1) == 0 for c in cells):
+                # bounding-box view of the spatial marginal: cells of the region carry their value, holes are NaN
+                rc = call(fc.spatial_counts, cartesian=True)
+                if rc[0] == 'ok':
+                    g = numpy.array(rc[1], dtype=float)
+                    ctx.count('cartesian_view_checked')
+                    if abs(float(numpy.nansum(g)) - ref) > 1e-12 * max(abs(ref), 1e-300) or \
+                            int(numpy.isnan(g).sum()) != g.size - len(cells):
+                        ctx.violate('C11', 'marginals', 'cartesian-view-of-spatial-marginal',
+                                    {'op': oi, 'nansum': float(numpy.nansum(g)), 'total': ref,
+                                     'nan_cells': int(numpy.isnan(g).sum()), 'holes': g.size - len(cells)})
             tol = 1e-12 * max(abs(ref), 1e-300)
             if abs(tot - ref) > tol or abs(float(fc.event_count) - ref) > tol:
                 ctx.violate('C11', 'marginals', 'sum-differs-from-data', {'op': oi, 'sum': tot, 'data_sum': ref})
